@@ -8,7 +8,11 @@ import wave
 from fractions import Fraction
 
 from . import common, graph
-from .chk_sources import FakeStdin, content
+from .chk_sources import FakeStdin, content as _content_small, content_big
+
+
+def content(n, sw, ch):
+    return content_big(n, sw, ch) if n > 1000 else _content_small(n, sw, ch)
 
 SR = 8
 FORMATS = [(1, 1), (2, 2), (4, 3)]
@@ -112,6 +116,12 @@ def build_reader(kind, data, sw, ch, files, block_dur, hop_dur, max_read, record
 
 def c10_case(kind, n, sw, ch, files, B, block_dur, H, hop_dur, max_read, extra_reads=3):
     """Returns complaint or None."""
+    # R2: durations whose exact product with the rate is within 1e-9 of an integer without being one are ambiguous
+    for dur in (block_dur, hop_dur):
+        if dur is not None:
+            q = Fraction(dur) * SR
+            if q.denominator != 1 and abs(q - round(q)) < Fraction(1, 10 ** 9):
+                return None
     data = content(n, sw, ch)
     bps = sw * ch
     samples = [data[i : i + bps] for i in range(0, len(data), bps)]
@@ -130,12 +140,15 @@ def c10_case(kind, n, sw, ch, files, B, block_dur, H, hop_dur, max_read, extra_r
             try:
                 b = r.read()
             except Exception as exc:
-                return "read #%d raised %r (after blocks %r)" % (len(got) + 1, exc, [x.hex() if x else x for x in got])
+                return "read #%d raised %r (after %d blocks)" % (len(got) + 1, exc, len(got))
             got.append(b)
         want = exp + [None] * extra_reads
         if got != want:
-            return "blocks %r, expected %r" % ([x.hex() if x is not None else None for x in got],
-                                               [x.hex() if x is not None else None for x in want])
+            def sh(x):
+                if x is None:
+                    return None
+                return x.hex() if len(x) <= 16 else "<%d bytes %s..%s>" % (len(x), x[:4].hex(), x[-4:].hex())
+            return "blocks %r, expected %r" % ([sh(x) for x in got], [sh(x) for x in want])
     finally:
         try:
             r.close()
@@ -193,6 +206,36 @@ def work_c10(task):
                                        "blocks": [b.hex() for b in blocks_of(
                                            [content(2 * B + 1, sw, ch)[i * sw * ch:(i + 1) * sw * ch] for i in range(2 * B + 1)],
                                            B, max(1, B - 1))]}})
+    return {"cov": cov, "viol": viol}
+
+
+def work_c10_large(task):
+    """Large blocks (1024 / 4096 samples) around block-multiple source lengths."""
+    global SR
+    sw, ch, B, tier, SR = task
+    lib()
+    cov = {"evaluations": 0, "distinct_nontrivial": 0, "traces_validated_against_impl": 0, "large_rows_not_exhaustive": 0,
+           "samples": []}
+    viol = []
+    for n in (B - 1, B, B + 1, 2 * B, 2 * B + 5, 3 * B + 1):
+        data = content(n, sw, ch)
+        files = write_files(data, sw, ch, "L%d_%d_%d_%d" % (os.getpid(), n, sw, ch))
+        for H in (None, B // 2, B - 1):
+            for mr in (None, (B + 1) / SR, (2 * B) / SR, (n + 9) / SR):
+                for kind in ("bytes", "wav", "raw", "stdin:4093"):
+                    msg = c10_case(kind, n, sw, ch, files, B, B / SR, B if H is None else H, None if H is None else H / SR, mr)
+                    cov["evaluations"] += 1
+                    cov["large_rows_not_exhaustive"] += 1
+                    cov["traces_validated_against_impl"] += 1
+                    cov["distinct_nontrivial"] += 1
+                    if msg and len(viol) < 5:
+                        key = "reader-large rate=%d kind=%s n=%d sw=%d ch=%d B=%d H=%r max_read=%r" % (SR, kind, n, sw, ch, B, H, mr)
+                        viol.append((key, msg[:400], {"kind": "c10", "source": kind, "n": n, "sw": sw, "ch": ch, "B": B, "block_dur": B / SR,
+                                                      "H": B if H is None else H, "hop_dur": None if H is None else H / SR,
+                                                      "max_read": mr, "rate": SR}))
+        for f in files.values():
+            os.unlink(f)
+    cov["samples"].append({"large_block": B, "sw": sw, "ch": ch, "rate": SR})
     return {"cov": cov, "viol": viol}
 
 
@@ -291,6 +334,10 @@ class RecSys:
             pass
 
 
+def _c10_dispatch(t):
+    return work_c10(t[1]) if t[0] == "w" else work_c10_large(t[1])
+
+
 def work_c19(task):
     global SR
     SR = 8
@@ -358,7 +405,8 @@ def run(prop, tier):
         rep.cov["bounds"] = {"block_samples": "1..5" if quick else "1..7", "rates": [8, 16000], "source_len": "0..3*block+2", "formats": FORMATS,
                              "kinds": kinds}
         c10_rejections(rep)
-        for part in common.pmap(work_c10, tasks):
+        ltasks = [("L", (sw, ch, B, tier, 8192)) for (sw, ch) in ((2, 2), (1, 1)) for B in ((1024, 4096) if quick else (1024, 4096, 8192))]
+        for part in common.pmap(_c10_dispatch, [("w", t) for t in tasks] + ltasks):
             rep.merge(part)
         rep.assumptions += ["rate 8 Hz so that block/hop/max_read values are exact binary fractions; max_read uses "
                             "Python's round() as the statement does",
@@ -376,6 +424,9 @@ def run(prop, tier):
                             continue
                         d, unpruned = (2, 5) if quick else (2, 7)
                         tasks.append(((n, fmt[0], fmt[1], B, H, mr, how, kind), d, unpruned))
+    for (n, B, H, mr) in ((3 * 1024 + 7, 1024, 1024, None), (3 * 1024 + 7, 1024, 512, None), (2 * 4096 + 1, 4096, 4095, (4096 + 100) / 8),
+                          (5000, 1024, 1000, 4500 / 8)):
+        tasks.append(((n, 2, 2, B, H, mr, "Recorder", "bytes"), 1, 4 if quick else 5))
     rep.cov["rule"] = ("one evaluation = one {read,rewind,data} history replayed on a fresh real recorder next to the model; "
                        "all distinct; all but the root non-trivial")
     rep.cov["bounds"] = {"configs": len(tasks), "source_len": "0..5" if quick else "0..7", "block": "1..3", "hop": "1..block"}
